@@ -489,6 +489,31 @@ thread_local! {
     static LAST_PANIC: std::cell::RefCell<Option<String>> = const { std::cell::RefCell::new(None) };
     static IN_SHRINK: std::cell::Cell<bool> = const { std::cell::Cell::new(false) };
     static SLOT: std::cell::Cell<usize> = const { std::cell::Cell::new(usize::MAX) };
+    /// panics that started on this thread since the last `catch` boundary: a second one while the first is still
+    /// unwinding (a destructor that panics during cleanup) makes the runtime abort the whole process
+    static IN_FLIGHT: std::cell::Cell<u32> = const { std::cell::Cell::new(0) };
+}
+
+/// Called from the panic hook when a panic starts while another one is unwinding on the same thread: the process
+/// is about to be aborted, so the case is reported here (a violation where a call that does not return is one)
+fn report_imminent_abort(msg: &str) {
+    let i = SLOT.with(|c| c.get());
+    let (kind, desc) = if i != usize::MAX {
+        let s = &slots()[i];
+        (s.kind.lock().map(|k| k.clone()).unwrap_or_default(), s.desc.lock().map(|k| k.clone()).unwrap_or_default())
+    } else {
+        (String::new(), String::new())
+    };
+    let c = ctx();
+    let why = format!("a panic inside a destructor while another panic was unwinding ({}): the runtime aborts the process", msg);
+    let case: Value = serde_json::from_str(&desc).or_else(|_| serde_json::from_str(&format!("{}]", desc.trim_end_matches(',')))).or_else(|_| serde_json::from_str(&format!("{}]}}", desc.trim_end_matches(',')))).unwrap_or(Value::String(desc.clone()));
+    if c.hang_is_violation {
+        c.violation(&kind, case, Failure::new(format!("abort|{}", kind), why));
+    } else {
+        c.inconclusive(&format!("{} in case {} {}", why, kind, desc));
+    }
+    let code = c.finish();
+    std::process::exit(code);
 }
 
 static SHRINK_BUDGET: AtomicUsize = AtomicUsize::new(3000);
@@ -516,6 +541,14 @@ pub fn install_panic_hook() {
         };
         let loc = info.location().map(|l| format!("{}:{}", l.file(), l.line())).unwrap_or_default();
         LAST_PANIC.with(|p| *p.borrow_mut() = Some(format!("{} @ {}", msg, loc)));
+        let earlier = IN_FLIGHT.with(|c| {
+            let n = c.get();
+            c.set(n + 1);
+            n
+        });
+        if earlier >= 1 && std::thread::panicking() {
+            report_imminent_abort(&format!("{} @ {}", msg, loc));
+        }
     }));
 }
 
@@ -541,7 +574,10 @@ pub fn install_panic_hook_keep_default() {
 
 /// Run `f`, converting a panic into Err(message @ location)
 pub fn catch<T, F: FnOnce() -> T>(f: F) -> Result<T, String> {
-    match panic::catch_unwind(AssertUnwindSafe(f)) {
+    let outer = IN_FLIGHT.with(|c| c.replace(0));
+    let r = panic::catch_unwind(AssertUnwindSafe(f));
+    IN_FLIGHT.with(|c| c.set(outer));
+    match r {
         Ok(v) => Ok(v),
         Err(_) => Err(LAST_PANIC.with(|p| p.borrow_mut().take()).unwrap_or_else(|| "<panic>".into())),
     }
